@@ -16,19 +16,24 @@ CONSTANTS G,          \* goroutines
 VARIABLES pc,      \* goroutine -> "idle" | "running"
           cur,     \* goroutine -> call being executed
           shared,  \* digest of the shared state
-          done     \* completed calls: <<goroutine, call, result>>
-cvars == <<pc, cur, shared, done>>
+          done,    \* goroutine -> its most recently completed call and result ("none" before the first)
+          ndone    \* number of completed calls
+cvars == <<pc, cur, shared, done, ndone>>
 
-Init == /\ pc = [g \in G |-> "idle"] /\ cur = [g \in G |-> "none"] /\ shared = Shared0 /\ done = {}
+NoCall == [call |-> "none", res |-> "none"]
+Init == /\ pc = [g \in G |-> "idle"] /\ cur = [g \in G |-> "none"] /\ shared = Shared0
+        /\ done = [g \in G |-> NoCall] /\ ndone = 0
 Begin(g, c) == /\ pc[g] = "idle" /\ pc' = [pc EXCEPT ![g] = "running"] /\ cur' = [cur EXCEPT ![g] = c]
-               /\ UNCHANGED <<shared, done>>
+               /\ UNCHANGED <<shared, done, ndone>>
 \* the linearisation point of a pure call is anywhere between Begin and End: its result depends on nothing shared
 End(g) == /\ pc[g] = "running" /\ pc' = [pc EXCEPT ![g] = "idle"] /\ cur' = [cur EXCEPT ![g] = "none"]
-          /\ done' = done \cup {<<g, cur[g], IF Broken /\ shared # Shared0 THEN "dirty" ELSE SeqResult[cur[g]]>>}
+          /\ done' = [done EXCEPT ![g] = [call |-> cur[g], res |-> IF Broken /\ shared # Shared0 THEN "dirty" ELSE SeqResult[cur[g]]]]
+          /\ ndone' = ndone + 1
           /\ shared' = IF Broken THEN "scribbled" ELSE shared
 Next == \E g \in G : (\E c \in Calls : Begin(g, c)) \/ End(g)
 Spec == Init /\ [][Next]_cvars
 
-Deterministic   == \A d \in done : d[3] = SeqResult[d[2]]
+\* every completed call returned what the same call returns in a sequential run (checked in the state right after it completes)
+Deterministic   == \A g \in G : done[g] = NoCall \/ done[g].res = SeqResult[done[g].call]
 SharedUnchanged == shared = Shared0
 =========================================================================
